@@ -34,7 +34,7 @@ Print Assumptions C07_mp4_default_second_save_identity.
 
 Definition c07_two_free : list Z :=
   mp4_build (mkLayout true 2 false (-1) [MHdlr; MFree 100; MFree 200; MIlst] mp4_empty_ilst
-               [mkTrak false true [0; 5]] [] (mp4_pattern 16 1) 0 0 false).
+               [mkTrak false true [0; 5]] [] (mp4_pattern 16 1) 0 0 false []).
 Example C07_mp4_second_save_ex :
   match mp4_save c07_two_free mp4_empty_ilst mp4_cb_default with
   | Ok f1 => match mp4_save f1 mp4_empty_ilst mp4_cb_default with Ok f2 => list_eqb f1 f2 | _ => false end
